@@ -211,6 +211,12 @@ impl Ctx {
                 shard.count("stakes_minting_zero_units_for_positive_xrd");
                 if pre.s.is_zero() {
                     shard.count("stakes_into_validator_with_dust_stake_and_no_units(minted nothing)");
+                    if shard.notes.len() < 2 {
+                        shard.notes.push(format!(
+                            "observation outside C42 (value destroyed, not created): staking {} subunits into a validator with stake vault {} and stake unit supply 0 minted 0 units (seed {} episode {} op {} {})",
+                            amount, pre.x, self.seed, self.ep, self.op_idx, label
+                        ));
+                    }
                 }
             }
         }
